@@ -47,6 +47,8 @@ REQUIRED_REACH = [
     "probe:fresh_interpreter_probe",
     "probe:history_other_rom_type",
     "probe:history_used_probe_path",
+    "probe:history_assembled_probe_text_under_other_layout",
+    "probe:history_assembled_probe_text_with_other_defines",
 ]
 
 POOL_TABLE = "58=x\n59=y\n5A=z\n5B5C=w\n7100=A\n72=B\n"
@@ -137,11 +139,16 @@ def gen_history_program(rng: random.Random, idx: int) -> dict[str, Any]:
 
 
 def gen_probe(rng: random.Random) -> dict[str, Any]:
-    mapping = rng.choice(["low", "low", "high"])
+    mapping = rng.choice(["low", "low", "high", "any", "any"])
     feats = {x for x in progen.ALL_FEATURES if rng.random() < 0.45}
     feats |= {"data"}
-    feats -= {"far_banks", "map", "defines", "table"}
-    prog = progen.gen_program(rng, mapping, feats, [], size=rng.choice([4, 8, 10]), prefix="p_")
+    feats -= {"far_banks", "map", "table"}
+    if mapping == "any":
+        feats |= {"branches"}
+    defines: list[tuple[str, str]] = []
+    if "defines" in feats:
+        defines = [("DEF0", rng.choice(["0x12", "7"])), ("DEF1", rng.choice(["0", "1"])), ("DEF2", rng.choice(["1", "3"]))][: rng.randrange(1, 4)]
+    prog = progen.gen_program(rng, mapping, feats, defines, size=rng.choice([4, 8, 10]), prefix="p_")
     extra: list[progen.Node] = []
     negatives = []
     r = rng.random()
@@ -174,7 +181,8 @@ def gen_probe(rng: random.Random) -> dict[str, Any]:
             pos = i
     prog.root[pos:pos] = extra
     entry = rng.choice(["string", "string", "patch", "assemble", "cli"])
-    return {"prog": prog.to_record(), "negatives": negatives, "shared": shared, "entry": entry, "rom_default": mapping == "low" and rng.random() < 0.5}
+    rom = mapping if mapping != "any" else rng.choice(["low", "high", "low2"])
+    return {"prog": prog.to_record(), "negatives": negatives, "shared": shared, "entry": entry, "rom": rom, "any_layout": mapping == "any", "defines": [list(d) for d in defines], "rom_default": rom == "low" and rng.random() < 0.5}
 
 
 SHARED_V = {
@@ -242,7 +250,7 @@ def gen_case(cseed: int, tier: str) -> dict[str, Any]:
         if kind == "fail":
             slots = list(progen.iter_slots(prog))
             klass = f.choice(sorted(ERROR_CLASSES))
-            if klass == "unmapped_bank" and not prog.unmapped_addr:
+            if (klass == "unmapped_bank" and not prog.unmapped_addr) or (klass in ("run_off_mapped_rom", "address_beyond_24_bits") and "map" in prog.features):
                 klass = "undefined_symbol_operand"
             ok = [s for s in slots if applicable(klass, s)]
             if ok:
@@ -287,7 +295,7 @@ def gen_case(cseed: int, tier: str) -> dict[str, Any]:
         slots = [s for s in progen.iter_slots(pprog)]
         klass = f.choice(sorted(ERROR_CLASSES))
         ok = [s for s in slots if applicable(klass, s)]
-        if ok and not (klass == "unmapped_bank" and not pprog.unmapped_addr):
+        if ok and not (klass == "unmapped_bank" and not pprog.unmapped_addr) and not (klass in ("run_off_mapped_rom", "address_beyond_24_bits") and "map" in pprog.features):
             pprog = progen.insert_at(pprog, f.choice(ok), error_node(klass, pprog))
             probe["fails_by"] = klass
     pf = pprog.all_files()
@@ -299,7 +307,25 @@ def gen_case(cseed: int, tier: str) -> dict[str, Any]:
     if same_path_ops:
         # restore the probe's own text at its path before the probe runs
         ops.append({"op": "write_file", "path": "probe.s", "data": pf["probe.s"], "kind": "same_path_restore"})
-    pspec = spec_for(probe["entry"], "probe.s", "probe_", pprog.mapping, [], w, probe["rom_default"])
+    pspec = spec_for(probe["entry"], "probe.s", "probe_", probe["rom"], probe["defines"], w, probe["rom_default"])
+    # the probe's own text assembled earlier in the same process under another layout / other -D values
+    # (anything remembered per source text, file name or logical address would be stale for the probe)
+    same_text_variants = []
+    if probe["any_layout"]:
+        same_text_variants += [("rom", r) for r in ("low", "high", "low2") if r != probe["rom"]]
+    if probe["defines"]:
+        flipped = [[n, {"0": "1", "1": "0", "0x12": "0x34", "7": "9", "3": "1"}.get(v, "2")] for n, v in probe["defines"]]
+        same_text_variants.append(("defines", flipped))
+    if same_text_variants and h.random() < 0.8:
+        for kind, val in h.sample(same_text_variants, h.randrange(1, len(same_text_variants) + 1)):
+            e = h.choice(["string", "with_emitter", "patch", "assemble", "cli"])
+            st = spec_for(e, "probe.s", f"st{len(ops)}_", val if kind == "rom" else probe["rom"], val if kind == "defines" else probe["defines"], h)
+            if st.get("out"):
+                roles[st["out"]] = "out_ips" if st["out"].endswith(".ips") else "out_sfc"
+            pos = h.randrange(0, len(ops) + 1)
+            if same_path_ops:
+                pos = 0  # before the probe's path is borrowed by another program
+            ops.insert(pos, {"op": "exec", "spec": st, "knobs": {}, "faults": [], "kind": "same_text_" + kind, "has_map": False, "pool": False, "mapping": val if kind == "rom" else probe["rom"], "insert_class": None})
     if pspec.get("out"):
         roles[pspec["out"]] = "out_ips" if pspec["out"].endswith(".ips") else "out_sfc"
     return {"files": files, "roles": roles, "ops": ops, "probe_spec": pspec, "probe_meta": {k: probe.get(k) for k in ("negatives", "shared", "fails_by")}, "seed": cseed, "fresh": w.random() < (0.01 if tier == "quick" else 0.03)}
@@ -395,6 +421,10 @@ def run_case(case: dict[str, Any], stats: Stats) -> list[Violation]:
         if op["op"] != "exec":
             stats.bump("probe:history_used_probe_path" if str(op.get("kind", "")).startswith("same_path") else "probe:history_rewrote_shared_file")
             continue
+        if op.get("kind") == "same_text_rom":
+            stats.bump("probe:history_assembled_probe_text_under_other_layout")
+        if op.get("kind") == "same_text_defines":
+            stats.bump("probe:history_assembled_probe_text_with_other_defines")
         if op.get("has_map"):
             stats.bump("probe:history_has_custom_map")
         if op.get("pool"):
